@@ -90,15 +90,31 @@ type algDef struct {
 	mats [2]material
 }
 
-// signState: what Storage.SigningKey / KeySet answer at one point of a history
+// pubEntry: one key of Storage.KeySet as published
+type pubEntry struct {
+	kid string
+	alg jose.SignatureAlgorithm
+	use string
+	m   material
+}
+
+// signState: what Storage.SigningKey / KeySet answer at one point of a history.
+// KeySet = pre ++ [the signing key's public key with `use`] ++ post.
 type signState struct {
-	algIdx   int
-	alg      jose.SignatureAlgorithm
-	kid      string
-	m        material
-	extraKid string // "" = no further published key
-	extraAlg jose.SignatureAlgorithm
-	extra    material
+	algIdx    int
+	alg       jose.SignatureAlgorithm
+	kid       string
+	m         material
+	use       string // "sig" or "" (RFC 7517: optional)
+	pre, post []pubEntry
+}
+
+func (sk signState) self() pubEntry { return pubEntry{sk.kid, sk.alg, sk.use, sk.m} }
+
+func (sk signState) published() []pubEntry {
+	out := append([]pubEntry{}, sk.pre...)
+	out = append(out, sk.self())
+	return append(out, sk.post...)
 }
 
 func keyPool() (algs []algDef, pool []any) {
@@ -135,24 +151,56 @@ func keyPool() (algs []algDef, pool []any) {
 // stateOf: the signing state params p asks for. The same kid is used for
 // different key material (and, with sharedKid, for different algorithms)
 // across cases, providers and histories of this one process on purpose.
+// Key-set shape: the signing key is published with use "sig" or without use;
+// further keys before / after it: a previous key (other kid), an encryption key
+// and a key of another type that share the signing key's kid, and - rarely, an
+// inconsistent shape - another signature key of the same type under the same kid.
 func stateOf(p params, algs []algDef) signState {
 	a := algs[p.key]
-	sk := signState{algIdx: p.key, alg: a.alg, m: a.mats[p.mat], kid: "sig-" + strings.ToLower(string(a.alg))}
+	sk := signState{algIdx: p.key, alg: a.alg, m: a.mats[p.mat], kid: "sig-" + strings.ToLower(string(a.alg)), use: p.keyUse}
 	if p.sharedKid {
 		sk.kid = "sig-1"
 	}
-	if p.extraKey {
-		sk.extraKid, sk.extraAlg, sk.extra = "prev-"+strings.ToLower(string(a.alg)), a.alg, a.mats[1-p.mat]
+	add := func(front bool, e pubEntry) {
+		if front {
+			sk.pre = append(sk.pre, e)
+		} else {
+			sk.post = append(sk.post, e)
+		}
+	}
+	otherType := algs[5] // EdDSA for RSA keys
+	switch a.mats[0].kty {
+	case "KEc":
+		otherType = algs[0]
+	case "KOkp":
+		otherType = algs[2]
+	}
+	for _, sh := range p.shape {
+		front := sh >= 10
+		switch sh % 10 {
+		case 1:
+			add(front, pubEntry{"prev-" + strings.ToLower(string(a.alg)), a.alg, p.prevUse, a.mats[1-p.mat]})
+		case 2:
+			add(front, pubEntry{sk.kid, a.alg, "enc", a.mats[1-p.mat]})
+		case 3:
+			add(front, pubEntry{sk.kid, otherType.alg, "sig", otherType.mats[p.mat]})
+		case 4:
+			add(front, pubEntry{sk.kid, a.alg, "sig", a.mats[1-p.mat]}) // clash
+		}
 	}
 	return sk
 }
 
 func applyKey(st *refstore.Store, sk signState) {
 	st.Signing = &refstore.SigningKey{KID: sk.kid, Alg: sk.alg, Priv: sk.m.priv}
-	st.ExtraPub = nil
-	if sk.extraKid != "" {
-		st.ExtraPub = []*refstore.PublicKey{{KID: sk.extraKid, Alg: sk.extraAlg, UseStr: "sig", Pub: sk.extra.pub}}
-	}
+	entries := sk.published()
+	st.SetKeySet(func() []op.Key {
+		out := make([]op.Key, len(entries))
+		for i, e := range entries {
+			out[i] = &refstore.PublicKey{KID: e.kid, Alg: e.alg, UseStr: e.use, Pub: e.m.pub}
+		}
+		return out
+	})
 }
 
 var allAlgs = []jose.SignatureAlgorithm{jose.RS256, jose.PS256, jose.ES256, jose.ES384, jose.ES512, jose.EdDSA,
@@ -186,7 +234,10 @@ type params struct {
 	key      int
 	mat      int  // which of the algorithm's two key materials signs
 	sharedKid bool // kid "sig-1" (shared by every algorithm) instead of "sig-<alg>"
-	extraKey bool
+	keyUse   string // use of the published signing key: "sig" or ""
+	prevUse  string
+	clash    bool   // the key set holds another signature key of the same type under the signing kid
+	shape    []int  // further published keys (see stateOf); +10 = before the signing key
 	jwtAT    bool
 	skew     int64
 	idLife   int64
@@ -280,7 +331,17 @@ func gen(r drv.Rand, i int, nKeys int) params {
 	}
 	p.mat = r.IntN(2)
 	p.sharedKid = r.Bool()
-	p.extraKey = r.Chance(1, 3)
+	p.keyUse = drv.Pick(r, []string{"sig", "sig", ""})
+	p.prevUse = drv.Pick(r, []string{"sig", ""})
+	for _, sh := range []int{1, 2, 3} {
+		if r.Chance(1, 4) {
+			p.shape = append(p.shape, sh+10*r.IntN(2))
+		}
+	}
+	if r.Chance(1, 25) {
+		p.shape = append(p.shape, 4+10*r.IntN(2))
+		p.clash = true
+	}
 	p.jwtAT = r.Bool()
 	p.skew = drv.Pick(r, []int64{0, 0, 30, -30})
 	p.idLife = drv.Pick(r, []int64{40, 600, 3600, 3600})
@@ -573,13 +634,14 @@ func fields(s string) []string {
 	return strings.Fields(s)
 }
 
-func run(p params, st *refstore.Store, f *opfix.Fixture) *result {
+func run(p params, st *refstore.Store, f *opfix.Fixture, arm func()) *result {
 	res := &result{client: "web"}
 	var resp *opfix.Resp
 	bracket := func(call func() *opfix.Resp) {
 		before := tokenIDs(st)
 		res.seq = st.Seq()
 		waitPhase()
+		arm()
 		res.t0 = time.Now()
 		resp = call()
 		res.t1 = time.Now()
@@ -712,9 +774,9 @@ func run(p params, st *refstore.Store, f *opfix.Fixture) *result {
 		var subTok string
 		var subType oidc.TokenType
 		switch {
-		case p.teSubjectType == "id" && p.skew >= 0: // with a negative skew the provider's hint verifier sees iat in the future
+		case p.teSubjectType == "id" && p.skew >= 0 && !p.clash: // a clashing key set breaks the provider's own hint verification // with a negative skew the provider's hint verifier sees iat in the future
 			subTok, subType = first.Str("id_token"), oidc.IDTokenType
-		case p.teSubjectType == "jwt" && p.jwtAT:
+		case p.teSubjectType == "jwt" && p.jwtAT && !p.clash:
 			subTok, subType = first.Str("access_token"), oidc.AccessTokenType
 		default:
 			subTok, subType = first.Str("refresh_token"), oidc.RefreshTokenType
@@ -949,10 +1011,26 @@ func optStrs(l []string) []string {
 type tally struct{ ambiguous, failedSetup int }
 
 // oneCase: one issuance on (st, f) whose storage currently answers sk; hist tags the history step.
+// rot > 0: the storage switches to sk2 after the rot-th SigningKey call of the request under test.
 func oneCase(p params, sk signState, st *refstore.Store, f *opfix.Fixture, pool []any, hist string, w *emit.Writer, tl *tally) bool {
+	return oneCaseRot(p, sk, sk, 0, st, f, pool, hist, w, tl)
+}
+
+func oneCaseRot(p params, sk, sk2 signState, rot int, st *refstore.Store, f *opfix.Fixture, pool []any, hist string, w *emit.Writer, tl *tally) bool {
 	var res *result
-	if pn := drv.Catch(func() { res = run(p, st, f) }); pn != "" {
+	arm := func() {
+		if rot > 0 {
+			st.RotateAfterSigningKeyCalls(rot, func() { applyKey(st, sk2) })
+		}
+	}
+	if pn := drv.Catch(func() { res = run(p, st, f, arm) }); pn != "" {
 		res = &result{panicked: pn}
+	}
+	final := sk
+	if rot > 0 { // whether or not the rotation was reached: the new state holds from now on
+		st.RotateAfterSigningKeyCalls(0, nil)
+		applyKey(st, sk2)
+		final = sk2
 	}
 	if res.panicked == "" && res.t0.IsZero() {
 		tl.failedSetup++
@@ -973,10 +1051,12 @@ func oneCase(p params, sk signState, st *refstore.Store, f *opfix.Fixture, pool 
 	clientTerm := emit.Ctor("mkClient", emit.Str(res.client), emit.Bool(p.jwtAT), emit.Z(p.skew), emit.Z(p.idLife), emit.Z(p.atLife),
 		emit.Bool(p.assert), emit.Bool(p.refreshGrant), emit.StrList(optStrs(p.dropID)), emit.StrList(optStrs(p.dropAT)))
 	keyTerm := emit.Ctor("mkKey", emit.Str(sk.kid), emit.Str(string(sk.alg)), sk.m.kty, fmt.Sprintf("%d%%N", sk.m.id))
-	extraTerm := "[]"
-	if sk.extraKid != "" {
-		extraTerm = emit.List([]string{emit.Ctor("mkJwk", emit.Str(sk.extraKid), emit.Str("sig"), sk.extra.kty, fmt.Sprintf("%d%%N", sk.extra.id))})
+	key2Term := emit.Ctor("mkKey", emit.Str(sk2.kid), emit.Str(string(sk2.alg)), sk2.m.kty, fmt.Sprintf("%d%%N", sk2.m.id))
+	pubs := []string{}
+	for _, e := range final.published() {
+		pubs = append(pubs, emit.Ctor("mkJwk", emit.Str(e.kid), emit.Str(e.use), e.m.kty, fmt.Sprintf("%d%%N", e.m.id)))
 	}
+	keysTerm := emit.List(pubs)
 	userTerm := emit.None
 	if u := st.Users[res.rqSub]; u != nil {
 		userTerm = emit.Some(emit.Ctor("mkUser", emit.Str(u.Name), emit.Str(u.Email),
@@ -1132,7 +1212,7 @@ func oneCase(p params, sk signState, st *refstore.Store, f *opfix.Fixture, pool 
 
 	var key [32]byte
 	copy(key[:], "c06-provider-crypto-key-32-bytes")
-	caseTerm := emit.Ctor("mkCase", emit.Nat(int(p.router)), emit.Str(opfix.Issuer), flowTerm, clientTerm, keyTerm, extraTerm, userTerm, reqTerm,
+	caseTerm := emit.Ctor("mkCase", emit.Nat(int(p.router)), emit.Str(opfix.Issuer), flowTerm, clientTerm, keyTerm, key2Term, emit.Nat(rot), keysTerm, userTerm, reqTerm,
 		emit.Str(p.state), idsTerm, entTerm, emit.Z(res.t0.UnixNano()), emit.Z(res.t1.UnixNano()), emit.Z(vnow.UnixNano()),
 		verTerm, emit.StrList(optStrs(p.atAlgs)), emit.List(hashes), aesTable(key[:], rawOpaque))
 
@@ -1151,7 +1231,7 @@ func oneCase(p params, sk signState, st *refstore.Store, f *opfix.Fixture, pool 
 	tags := []string{"router=" + p.router.String(), "flow=" + p.flow, "at=" + atKind, "alg=" + string(sk.alg), fmt.Sprintf("skew=%d", p.skew),
 		fmt.Sprintf("idlife=%d", p.idLife), fmt.Sprintf("atlife=%d", p.atLife), "subject_colon=" + colon, "openid=" + openid,
 		"assert=" + emit.Bool(p.assert), fmt.Sprintf("offset=%d", p.offset), fmt.Sprintf("custom=%v", contains(res.rqScopes, "custom:x") || contains(res.rqScopes, "custom:y")),
-		fmt.Sprintf("extrakey=%v", sk.extraKid != ""), fmt.Sprintf("valgs_default=%v", p.vAlgs == nil), "hist=" + hist, fmt.Sprintf("uiscopes=%d", uiCount(res.rqScopes))}
+		fmt.Sprintf("keyuse=%q", final.use), fmt.Sprintf("keyset=%d+1+%d", len(final.pre), len(final.post)), fmt.Sprintf("rot=%d", rot), fmt.Sprintf("valgs_default=%v", p.vAlgs == nil), "hist=" + hist, fmt.Sprintf("uiscopes=%d", uiCount(res.rqScopes))}
 	w.Add(emit.Case{Input: emit.Ctor("ICase", caseTerm), Observed: observed, Tags: tags,
 		Human: map[string]any{"params": fmt.Sprintf("%+v", p), "status": res.status, "access_token": res.access, "id_token": res.idToken,
 			"subject": res.rqSub, "scopes": res.rqScopes}})
@@ -1160,28 +1240,55 @@ func oneCase(p params, sk signState, st *refstore.Store, f *opfix.Fixture, pool 
 
 var sixAlgs = []string{"RS256", "PS256", "ES256", "ES384", "ES512", "EdDSA"}
 
-// history: several issuances in one process around a change of the signing key.
+// history: several issuances in one process around a change of the signing key,
+// between requests or (in_request) between two SigningKey calls of one request.
 // Every response is verified against the key set served at that time.
 func history(r drv.Rand, p params, sk1 signState, algs []algDef, pool []any, w *emit.Writer, tl *tally) {
-	kind := drv.Pick(r, []string{"same_kid_new_key", "new_kid_new_key", "same_kid_new_alg", "two_providers"})
+	kind := drv.Pick(r, []string{"same_kid_new_key", "new_kid_new_key", "same_kid_new_alg", "two_providers", "in_request", "in_request"})
 	other := algs[p.key].mats[1-p.mat]
 	sk2, p2 := sk1, p
+	newAlg := func() {
+		j := (p.key + 1 + r.IntN(len(algs)-1)) % len(algs)
+		sk2.algIdx, sk2.alg, sk2.m = j, algs[j].alg, algs[j].mats[r.IntN(2)]
+		p2.key = j
+	}
 	switch kind {
 	case "same_kid_new_key", "two_providers":
-		sk2.m, sk2.extraKid = other, "" // the old public key is withdrawn
+		sk2.m, sk2.pre, sk2.post = other, nil, nil // the old public key is withdrawn
 	case "new_kid_new_key":
 		sk2.m, sk2.kid = other, sk1.kid+"-next"
-		sk2.extraKid, sk2.extraAlg, sk2.extra = sk1.kid, sk1.alg, sk1.m // the old key stays published
+		sk2.pre, sk2.post = nil, []pubEntry{sk1.self()} // the old key stays published
 	case "same_kid_new_alg":
-		j := (p.key + 1 + r.IntN(len(algs)-1)) % len(algs)
-		sk2.algIdx, sk2.alg, sk2.m, sk2.extraKid = j, algs[j].alg, algs[j].mats[r.IntN(2)], ""
-		p2.key = j
+		newAlg()
+		sk2.pre, sk2.post = nil, nil
 		if p.vAlgs != nil {
 			p2.vAlgs = []string{string(sk2.alg)}
 		}
 		if p.atAlgs != nil {
 			p2.atAlgs = []string{string(sk2.alg)}
 		}
+	case "in_request":
+		// new kid; mostly another algorithm (other hash family); both keys published
+		if r.Chance(3, 4) {
+			newAlg()
+		} else {
+			sk2.m = other
+		}
+		sk2.kid = sk1.kid + "-next"
+		sk2.use = drv.Pick(r, []string{"sig", ""})
+		sk2.pre, sk2.post = nil, []pubEntry{sk1.self()}
+		if r.Bool() {
+			sk2.pre, sk2.post = sk2.post, nil
+		}
+		if p.vAlgs != nil {
+			p2.vAlgs = []string{string(sk1.alg), string(sk2.alg)}
+		}
+		if p.atAlgs != nil {
+			p2.atAlgs = []string{string(sk2.alg), string(sk1.alg)}
+		}
+		st, f := setup(p, sk1, sixAlgs)
+		oneCaseRot(p2, sk1, sk2, 1+r.IntN(2), st, f, pool, kind, w, tl)
+		return
 	}
 	if kind == "two_providers" {
 		stA, fA := setup(p, sk1, []string{string(sk1.alg)})
@@ -1219,7 +1326,7 @@ func main() {
 		history(r, p, sk, algs, pool, w, tl)
 	}
 	err := w.Close(emit.Meta{Property: "C06", Tier: cfg.Tier, Seed: cfg.Seed,
-		Rule: "one case = one token response: a complete flow (code, implicit id_token / id_token token, refresh, device, client_credentials, jwt-bearer, token-exchange for access / refresh / ID token) run over HTTP recorders against the Provider or LegacyServer router on refstore; flow and router cycle deterministically, the rest is drawn from the PRNG: signing key (RS256, PS256, ES256, ES384, ES512, EdDSA; two key materials per algorithm under the SAME kid, kid shared across algorithms in half of the cases; optionally a second published key), access-token type, client clock skew (0, +-30 s), ID/access-token lifetimes, scope set (15 base sets plus a random extra standard scope: with/without openid, every subset pattern of profile/email/phone/address, offline_access, custom:x/y; the storage serves a distinct claim group per standard scope and marks userinfo scopes that reach the private-claims lookup), restricted scopes, userinfo-assertion flag, subject (also with ':' and unknown to the user store), audience, nonce/acr/amr/auth time, and the verifier configuration (consistent in most cases; default algorithm list, short offset against a negative skew as inconsistent ones). Every fifth slot is a multi-issuance history in one store/provider (tag hist=): issue, replace the storage's signing key (same kid new material and back; new kid new material with the old key still published; same kid other algorithm), issue again - or two providers alive at once with the same kid and different key material, issuing alternately; each response is a case of its own whose input names the key current at that issuance and which is verified against the /keys document served at that time. Every case issues tokens, so non-trivial = all; distinct = distinct (input, model path class: flow x token kind x refresh token x verdicts).",
+		Rule: "one case = one token response: a complete flow (code, implicit id_token / id_token token, refresh, device, client_credentials, jwt-bearer, token-exchange for access / refresh / ID token) run over HTTP recorders against the Provider or LegacyServer router on refstore; flow and router cycle deterministically, the rest is drawn from the PRNG: signing key (RS256, PS256, ES256, ES384, ES512, EdDSA; two key materials per algorithm under the SAME kid, kid shared across algorithms in half of the cases; published with use sig or without use, with further keys before / after it: previous key, an enc key and a key of another type under the same kid, rarely a clashing signature key), access-token type, client clock skew (0, +-30 s), ID/access-token lifetimes, scope set (15 base sets plus a random extra standard scope: with/without openid, every subset pattern of profile/email/phone/address, offline_access, custom:x/y; the storage serves a distinct claim group per standard scope and marks userinfo scopes that reach the private-claims lookup), restricted scopes, userinfo-assertion flag, subject (also with ':' and unknown to the user store), audience, nonce/acr/amr/auth time, and the verifier configuration (consistent in most cases; default algorithm list, short offset against a negative skew as inconsistent ones). Every fifth slot is a multi-issuance history in one store/provider (tag hist=): issue, replace the storage's signing key (same kid new material and back; new kid new material with the old key still published; same kid other algorithm), issue again - or two providers alive at once with the same kid and different key material, issuing alternately, or the signing key replaced after the 1st / 2nd Storage.SigningKey call WITHIN the request under test (new kid, mostly another hash family, both keys published); each response is a case of its own whose input names the key current at that issuance and which is verified against the /keys document served at that time. Every case issues tokens, so non-trivial = all; distinct = distinct (input, model path class: flow x token kind x refresh token x verdicts).",
 		Extra: map[string]any{"clock_ambiguous": tl.ambiguous, "setup_failed": tl.failedSetup}})
 	if err != nil {
 		fmt.Fprintln(os.Stderr, err)
